@@ -58,6 +58,7 @@ def engine(R, prog):
     f = G.root
     lt = an.LockTracker()
     lt.strict.add('this->m_mutex_r')
+    PA = K.param(f, 0)            # the caller's own context (a reference parameter)
     erase_locals = set()
     for e in f.exprs:
         if e['k'] == 'binop' and e['op'] == '=':
@@ -67,15 +68,15 @@ def engine(R, prog):
                 erase_locals.add(l['name'])
     erase_locals |= K.local_names_init_by(f, lambda e, i: e['k'] == 'call' and strip_targs(e.get('fn') or '').endswith('::erase') and 'm_map' in f.show(i))
     waited = lambda ev: ev.kind == 'call' and ev.callee() == 'photon::condition_variable::wait' and (ev.recv_path() or '').endswith('m_wait')
-    seen = an.SeenTracker([('waited', waited), ('collected_pub', lambda ev: (K.written_member(ev) or ('',))[0] == PHASE and 'COLLECTED' in ev.show(ev.e['r']) and 'targ' in ev.show(ev.e['l']))])
+    seen = an.SeenTracker([('waited', waited), ('collected_pub', lambda ev: (K.written_member(ev) or ('',))[0] == PHASE and 'COLLECTED' in ev.show(ev.e['r']) and not (ev.path(ev.e['l']) or '').startswith(PA + '.'))])
     gt = an.GuardTracker(lambda k: True)
     res = an.run(G, [lt, gt, seen, an.ConstTracker()])
-    collected = lambda st: any(re.match(r'^G:args\.phase == 4=T$', x) or re.match(r'^G:args\.phase == \d+=T$', x) and 'COLLECTED' for x in st)
+    collected = lambda st: ('G:%s.phase == 4=T' % PA) in st
 
     def own_erase_found(st):
         if any(('G:%s=T' % v) in st for v in erase_locals):
             return True
-        return any(re.match(r'^G:this->m_map\.erase\(args\.tag\)=T$', x) for x in st)
+        return ('G:this->m_map.erase(%s.tag)=T' % PA) in st
     wret = K.local_names_init_by(f, lambda e, i: e['k'] == 'call' and strip_targs(e.get('fn') or '') == 'photon::condition_variable::wait' and 'm_wait' in f.show(i))
     R.require(wret, 'C11: wait_completion no longer keeps the result of m_wait.wait() (anchor vanished)')
     K.check_at(R, P + '.K6', G, res,
@@ -105,7 +106,7 @@ def engine(R, prog):
                key_fn=lambda ev: P + '.K8:OooEngine::wait_completion:COLLECTED-before-wake',
                describe=lambda ev: 'the owner is interrupted only after COLLECTED was published under its phaselock', min_sites=1, what='thread_interrupt')
     # the result is published only after it has been collected (a waiter that sees COLLECTED returns and frees its buffers)
-    pub = lambda ev: (K.written_member(ev) or ('',))[0] == PHASE and 'COLLECTED' in ev.show(ev.e['r']) and ev.path(ev.e['l']) not in ('args.phase',)
+    pub = lambda ev: (K.written_member(ev) or ('',))[0] == PHASE and 'COLLECTED' in ev.show(ev.e['r']) and ev.path(ev.e['l']) != PA + '.phase'
     res4 = an.run(G, [an.LockTracker(), an.SeenTracker([('round', is_completion, ('collected',)), ('collected', is_collect)])])
     K.check_at(R, P + '.K8', G, res4, pub,
                require=lambda st, ev: 'S:collected' in st and an.has_lock(st, (ev.path(ev.e['l']) or '').replace('->phase', '->phaselock').replace('.phase', '.phaselock')),
@@ -114,7 +115,7 @@ def engine(R, prog):
     # the removal of the found entry happens under the same map lock as the lookup
     res3 = an.run(G, [an.LockTracker(), an.SeenTracker([('found', lambda ev: ev.kind == 'call' and (ev.callee() or '').endswith('::find') and 'm_map' in (ev.recv_path() or ''), ('taken',)),
                                                           ('unlocked_since_find', lambda ev: ev.kind == 'dtor' and (ev.callee() or '').endswith('locker::~locker') and False),
-                                                          ('taken', lambda ev: ev.kind == 'call' and (ev.callee() or '').endswith('::erase') and 'm_map' in (ev.recv_path() or '') and ev.arg_show(0) == 'it')])])
+                                                          ('taken', lambda ev: ev.kind == 'call' and (ev.callee() or '').endswith('::erase') and 'm_map' in (ev.recv_path() or '') and ev.arg_show(0) in K.locals_assigned_from_call(f, r'::find$'))])])
     K.check_at(R, P + '.K8', G, res3, is_collect, require=lambda st, ev: 'S:taken' in st,
                key_fn=lambda ev: P + '.K8:OooEngine::wait_completion:take-before-collect',
                describe=lambda ev: 'the context is removed from the map (ownership taken) before it is collected into', min_sites=1, what='do_collect')
@@ -143,13 +144,13 @@ def stub(R, prog):
     res = an.run(G, [an.GuardTracker(lambda k: True), an.SeenTracker([('tag', lambda ev: ev.kind == 'binop' and ev.e['op'] == '=' and (ev.path(ev.e['l']) or '').endswith('->tag') and 'm_header.tag' in ev.show(ev.e['r']))])])
     K.check_at(R, P + '.K6', G, res, lambda ev: ev.kind == 'return' and ev.depth == 0 and ev.f.const(ev.e['sub']) == 0,
                require=lambda st, ev: 'S:tag' in st and any(re.match(r'^G:this->m_header\.magic == .+=T$', x) for x in st) and
-               any(re.match(r'^G:this->m_header\.version( == .+=T|=F)$', x) for x in st) and any(re.match(r'^G:ret == (\d+|sizeof.*)=T$', x) for x in st),
+               any(re.match(r'^G:this->m_header\.version( == .+=T|=F)$', x) for x in st) and any(re.match(r'^G:%s == (\d+|sizeof.*)=T$' % re.escape(r), x) for x in st for r in K.locals_assigned_from_call(G.root, r'::read$')),
                key_fn=lambda ev: P + '.K6:StubImpl::do_recv_header:accept-only-valid-header',
                describe=lambda ev: 'header accepted only if fully read, magic/version match, and the routing tag is the header\'s', min_sites=1, what='return 0')
     G = K.build(R, prog, S + '::do_recv_body')
     res = an.run(G, [an.GuardTracker(lambda k: True)])
     K.check_at(R, P + '.K6', G, res, lambda ev: ev.kind == 'return' and ev.depth == 0 and ev.f.const(ev.e['sub']) is None,
-               require=lambda st, ev: any(re.match(r'^G:ret == this->m_header\.size=T$', x) for x in st),
+               require=lambda st, ev: ('G:%s == this->m_header.size=T' % ev.path(ev.e['sub'])) in st and ev.path(ev.e['sub']) in K.locals_assigned_from_call(G.root, r'::readv$'),
                key_fn=lambda ev: P + '.K6:StubImpl::do_recv_body:full-body-or-error',
                describe=lambda ev: 'a body is reported only when exactly m_header.size bytes arrived', min_sites=1, what='return ret')
     # do_call: issue then wait, result only on success
@@ -158,7 +159,8 @@ def stub(R, prog):
                            ('waited', lambda ev: ev.kind == 'call' and ev.callee() == 'photon::rpc::ooo_wait_completion')])
     res = an.run(G, [seen, an.GuardTracker(lambda k: True), an.LockTracker()])
     K.check_at(R, P + '.K6', G, res, lambda ev: ev.kind == 'return' and ev.depth == 0 and ev.f.const(ev.e['sub']) is None,
-               require=lambda st, ev: 'S:issued' in st and 'S:waited' in st and 'G:ret < 0=F' in st,
+               require=lambda st, ev: 'S:issued' in st and 'S:waited' in st and ('G:%s < 0=F' % ev.path(ev.e['sub'])) in st and
+               ev.path(ev.e['sub']) in K.locals_assigned_from_call(G.root, r'ooo_wait_completion$'),
                key_fn=lambda ev: P + '.K6:StubImpl::do_call:success-only-after-completion',
                describe=lambda ev: 'do_call reports success only after issue and completion both succeeded', min_sites=1, what='return ret')
     K.check_at(R, P + '.K2', G, res, lambda ev: ev.kind == 'call' and ev.callee() in ('photon::rpc::ooo_issue_operation', 'photon::rpc::ooo_wait_completion'),
